@@ -144,6 +144,9 @@ func c05Check(in c05Input) (key, what string) {
 			d.End.Replace(fmt.Sprintf("// t%d", i))
 		case 2:
 			d.End.Replace("\n")
+		case 3:
+			// a general comment over two lines (its last line names the element, so that the chunk ends there)
+			d.End.Replace(fmt.Sprintf("/* t%d\n\t   e%d */", i, i))
 		}
 	}
 	out, err, pm := printDst(f)
@@ -221,7 +224,7 @@ func c05Check(in c05Input) (key, what string) {
 	}
 	// a "\n" Start decoration after an EmptyLine/NewLine Before is neutral; a "\n" End likewise
 	for i := 0; i+1 < n; i++ {
-		if in.After[i] == 0 && in.Before[i+1] == 0 && in.End[i] == 0 {
+		if in.After[i] == 0 && in.Before[i+1] == 0 && (in.End[i] == 0 || in.End[i] == 3) {
 			continue // no line break requested: the elements do not occupy their own lines
 		}
 		want := 0
@@ -495,6 +498,14 @@ func c05Prop(c *Ctx) {
 				in.Before[0] = 2
 				for i := range in.Start {
 					in.Start[i] = 0
+				}
+			}
+			if (k == "field" || k == "spec") && r%2 == 1 {
+				// End comments of fields and specs go into the node's Comment field: also when they span lines
+				for i := range in.End {
+					if c.Rng.Intn(2) == 0 {
+						in.End[i] = 3
+					}
 				}
 			}
 			run(in)
